@@ -64,8 +64,8 @@ class C20(Prop):
     trusted_base = [
         "Coq 8.16.1 kernel + vm_compute (shard evaluation)",
         "hand-written model coq/Model/LoaderModel.v tied to invoke/loader.py by differential execution (this run)",
-        "OS contract: os.listdir(p) returns the listing of p or raises FileNotFoundError; os.listdir('') raises "
-        "FileNotFoundError; os.path.exists; importlib spec_from_file_location/exec_module load the named file",
+        "OS contract: os.listdir(p) returns the listing of p or raises FileNotFoundError; os.path.abspath is "
+        "lexical normalisation against os.getcwd(); os.path.exists; importlib spec_from_file_location/exec_module load the named file",
         "harness/props/c20.py: layout builder, the file-system description handed to Coq (real os.listdir / "
         "os.path.exists answers for every ancestor), os.path.abspath canonicalisation",
         "CPython 3.12 executing /repo",
@@ -117,6 +117,8 @@ class C20(Prop):
             starts = list(range(depth)) + (["side"] if side != "none" else [])
             start = rng.choice(starts)
             sk = rng.choice(["abs", "abs", "abs", "slash", "rel", "dot", "dotdot", "cwdnone"])
+            if rng.random() < 0.03:
+                sk = "missing"
             cwd = 0
             if sk == "rel":
                 sd = 1 if start == "side" else start
@@ -178,6 +180,8 @@ class C20(Prop):
             for start in range(3):
                 for sk in ("dot", "dotdot", "cwdnone"):
                     yield mkcase(kinds, start, sk, distractor=False)
+                if "mod" in kinds:
+                    yield mkcase(kinds, start, "missing", distractor=False)
                 yield with_opts(mkcase(kinds, start, distractor=False), start_in=True)
                 yield with_opts(mkcase(kinds, start, "cwdnone", distractor=False), start_in=True, name_cfg=True)
         # symlinked module / package / intermediate directory at every level (depth 2)
@@ -288,7 +292,17 @@ class C20(Prop):
         every directory string the walk or the reference may look at."""
         name = case["name"]
         sdir = self._start_dir(case)
-        cwd = self._level_dir(case["cwd"]) if self._kind(case) == "rel" else self.base
+        if self._kind(case) == "rel":
+            cwd = self._level_dir(case["cwd"])
+        else:
+            # an absolute start must not consult the working directory: work from an unrelated
+            # directory that holds a module and a package of every collection name
+            cwd = os.path.join(self.base, "cwdhome")
+            if not os.path.isdir(cwd):
+                os.makedirs(cwd)
+                for nm in NAMES + [ROOT_NAME]:
+                    with open(os.path.join(cwd, nm + ".py"), "w") as f:
+                        f.write("WHERE = 'the working directory'\n")
         kind = self._kind(case)
         extra_keys = []
         if kind in ("abs", "cwdnone"):
@@ -297,6 +311,8 @@ class C20(Prop):
                 cwd = sdir
         elif kind == "slash":
             start = sdir + "/"
+        elif kind == "missing":
+            start = os.path.join(sdir, "zz_no_such_dir")       # does not exist: outside the property
         elif kind == "dot":
             start = sdir + "/."
             extra_keys.append((start, start))
@@ -433,27 +449,7 @@ class C20(Prop):
         return "%s:%s:depth=%d%s" % (case["start_kind"], what, len(case["kinds"]) - 1, lk)
 
     def finding_of(self, case, obs):
-        if self._kind(case) == "dotdot" and "loaded" in obs["raw"] and isinstance(case["start"], int):
-            # F-C20c: <start>/<sub>/.. makes the walk look into <sub> before the ancestors of <start>
-            s = case["start"]
-            if s + 1 < len(case["kinds"]) and case["kinds"][s] not in CAND and case["kinds"][s + 1] in CAND \
-                    and not case.get("start_in"):
-                return "F-C20c"
-            return None
-        if obs["raw"].get("exc") != "CollectionNotFound":
-            return None
-        near = self._nearest(case)
-        if near is None:
-            return None
-        if self._kind(case) in ("abs", "slash", "dot", "dotdot", "cwdnone"):
-            # only the root holds a candidate: '/' is never examined from below
-            return "F-C20" if near[0] == "root" else None
-        # relative start: nothing at or above the cwd is examined
-        if near[0] == "root":
-            return "F-C20b"
-        if near[0] == "level" and near[1] <= case["cwd"]:
-            return "F-C20b"
-        return None
+        return None      # F-C20 / F-C20b / F-C20c are fixed (a51b5ff)
 
     def shrink_candidates(self, case):
         kinds = case["kinds"]
@@ -465,7 +461,7 @@ class C20(Prop):
             yield dict(case, distractor=False)
         if case["side"] != "none" and case["start"] != "side":
             yield dict(case, side="none")
-        if case["start_kind"] in ("slash", "dot", "cwdnone"):
+        if case["start_kind"] in ("slash", "dot", "cwdnone", "missing"):
             yield dict(case, start_kind="abs")
         for f in ("start_in", "name_cfg"):
             if case.get(f):
